@@ -157,9 +157,9 @@ prop("C06", "fault_enumeration",
      "may); oracle after recovery and after a resumption phase: each file is partial with an accurate record, or held validated, or delivered under "
      "its proper name with a log record, exactly once; nothing reported passed/waiting before the crash is lost; non-trivial = crash index strictly inside "
      "the step sequence; distinct = (script, crash indexes)",
-     [dict(pkg="stagex", test="TestC06Crash", world="W1r+pause", overlay=True, quick=480, thorough=16000, per_proc=60, shrink_runs=80,
+     [dict(pkg="stagex", test="TestC06Crash", world="W1r+pause", overlay=True, quick=480, thorough=16000, per_proc=60, shrink_runs=80, watchdog=60,
            required_classes=["crash:Move:os.Rename", "crash:putFileAway:Received", "crash:writeJSON:os.Rename", "crash:Receive:os.Rename",
-                             "crash:process:os.Rename", "crash-during-recovery", "final-on-other-file-system", "crash:Move:Copy"])],
+                             "crash:process:os.Rename", "crash-during-recovery", "final-on-other-file-system", "crash:Move:Copy", "new-version-of-delivered-name"])],
      STAGE_ASSUME + ["process-crash model: every completed system call is durable; no torn writes or reordering",
                      "crash points are the statements the instrumenter recognises as durable steps (listed as crash:* classes in the evidence)",
                      "a crash inside the transfer of one part's bytes is represented by the crash points before and after the data copy"])
@@ -306,7 +306,7 @@ prop("C15", "exploration",
      "non-trivial = (a) a request differing from an authorised one in source or key only, (b) recovery actually held",
      [dict(pkg="wirex", test="TestC15Wire", world="W3", needs_sts_binary=True, quick=160, thorough=6000, shards=8, shrinktime="60s", timeout=1500,
            required_classes=["unauthorised-request"]),
-      dict(pkg="stagex", test="TestC15Recovery", world="W1r+pause", overlay=True, quick=480, thorough=16000, per_proc=60, shrink_runs=80,
+      dict(pkg="stagex", test="TestC15Recovery", world="W1r+pause", overlay=True, quick=480, thorough=16000, per_proc=60, shrink_runs=80, watchdog=60,
            required_classes=["request-during-recovery"])],
      WIRE_ASSUME + ["header values are trimmed by HTTP itself, so values differing only in surrounding blanks are not generated",
                     "the window between 'go stager.Recover()' at process start and the goroutine clearing the ready flag is not claimed",
